@@ -21,7 +21,7 @@ STATELESS = True
 RULE = ("one case = one whole history (12..70 steps) of map/unMap/clear on 2..4 int/float parameters, incoming "
         "CC(id,value) from 2..6 controller ids and explicit deliveries of the two message channels; streams: "
         "synchronous histories, random delivery orders, systematically enumerated delivery orders of short "
-        "scripts (thorough tier: ALL 4^n assignments of a delivery word from {-, r, n, r n} to the n <= 7 calls of four "
+        "scripts (thorough tier: ALL 4^n assignments of a delivery word from {-, r, n, r n} to the n <= 8 calls of five "
         "scripts), histories with clear; every history ends with a drain and a probe of every controller; "
         "non-trivial = at least one controller value reaches a parameter (the implementation printed a message); "
         "distinct = distinct op line")
@@ -489,8 +489,6 @@ def gen_exhaustive():
     (thorough tier): all of these delivery orders are driven, not sampled"""
     import itertools
     for s in SCRIPTS:
-        if len(s) > 7:
-            continue
         for combo in itertools.product(FILL4, repeat=len(s)):
             t = ["P:i:0:1016,f:-8:8"]
             for o, f in zip(s, combo):
